@@ -46,6 +46,65 @@ KINDS = {
 MAXSZ = dict(word=4, abs=6, jmp=6, bra=4, bsr=4, bsrx=4, bcc=4, sbra=2, equ=4)
 
 
+# (short branch with a label operand, byte data statement, extra prologue) for the "shadow" programs
+SHADOW = {"6502": ("bne %s", "byt", []), "6809": ("bra %s", "fcb", []), "6811": ("bra %s", "fcb", []),
+          "68000": ("bra.s %s", "dc.b", ["\tpadding off"]), "8086": ("jmp %s", "db", []), "z80": ("jr %s", "db", [])}
+
+
+def render_shadow(sh, outer_name="skip"):
+    br, B, pro = SHADOW[sh["target"]]
+    L = ["\tcpu %s" % sh["target"]] + pro + ["\torg 256"]
+    if sh["outer"] == "equ":
+        L.append("%s\tequ 300" % outer_name)
+    elif sh["outer"] == "section":
+        L += ["%s:\t%s 17,18" % (outer_name, B)]
+    else:
+        L += ["%s:\t%s 17" % (outer_name, B), "\t%s 18,19" % B]
+    body = []
+    for i in range(sh["nrefs"]):
+        body.append("\t" + br % "skip")
+        if sh["k"]:
+            body.append("\t%s %s" % (B, ",".join(str(20 + (j % 200)) for j in range(sh["k"]))))
+    body.append("skip:\t%s 33" % B)
+    if sh["construct"] == "macro":
+        L += ["shm\tmacro"] + body + ["\tendm"] + ["\tshm"] * sh["calls"]
+    elif sh["construct"] == "rept":
+        L += ["\trept %d" % sh["calls"]] + body + ["\tendm"]
+    else:
+        L += ["\tirp zz,%s" % ",".join(str(i) for i in range(sh["calls"]))] + body + ["\tendm"]
+    if sh["force2"]:
+        L += ["\t" + br % "fwdx", "\t%s 1,2,3" % B, "fwdx:\t%s 77" % B]
+    L.append("\t%s 99" % B)
+    return "\n".join(L) + "\n"
+
+
+def execute_shadow(case):
+    sh = case["shadow"]
+    classes = ["shadow", "shadow:" + sh["construct"], "shadow-cpu:" + sh["target"]] + (["shadow-onepass"] if not sh["force2"] else [])
+    key = "shadow|%s|%s|%s|%d|%d|%d" % (sh["target"], sh["construct"], sh["outer"], sh["k"], sh["calls"], sh["force2"])
+    src = render_shadow(sh)
+    env = {"ASL_VERIF_MAX_PASSES": "200"}
+    r = asl.assemble({"t.asm": src}, env=env, timeout=60, cpu=40)
+    if r.timed_out:
+        return engine.inconclusive("timeout", classes)
+    detail = dict(src=src, **r.brief())
+    if r.status != 0 or r.p is None:
+        return engine.bad("valid program rejected: status %s" % r.status, key, classes, **detail)
+    r2 = asl.assemble({"t.asm": src}, env=dict(env, ASL_VERIF_EXTRA_PASSES="1"), timeout=60, cpu=40)
+    if r2.timed_out:
+        return engine.inconclusive("timeout", classes)
+    if r2.status != 0 or r2.p != r.p:
+        return engine.bad("one further pass changes the code file (status %s)" % r2.status, key, classes, **detail)
+    # the outer symbol is never referenced: giving it another name must not change the code
+    r3 = asl.assemble({"t.asm": render_shadow(sh, "skip_outer")}, env=env, timeout=60, cpu=40)
+    if r3.timed_out:
+        return engine.inconclusive("timeout", classes)
+    if r3.status != 0 or r3.p != r.p:
+        return engine.bad("renaming an unreferenced outer symbol changes the code file: references inside the body "
+                          "bind to the outer symbol instead of the body's own label", key, classes, **detail)
+    return engine.ok(key, classes)
+
+
 def budget(tier):
     return dict(examples=10000 if tier == "quick" else 120000, shards=16)
 
@@ -58,6 +117,17 @@ def strategy_(d, tier):
         names = corpus.names()
         name = names[d.int(0, len(names) - 1)]
         return dict(golden=name, tail=statepool.draw(d, name), var=variants.ops_strategy(d) if d.bool(0.3) else None)
+    if d.bool(0.12):
+        # a macro / REPT / IRP body with a forward reference to its own label while a symbol of the same name
+        # already exists outside: pass 1 finds the outer symbol, so a further pass is needed - also when nothing
+        # else in the program asks for one
+        # (the whole construct stays within short-branch reach of the outer symbol: pass 1 binds the forward
+        # references to it and range-checks the distance - a program whose outer symbol is out of reach is rejected
+        # in pass 1, which is not the subject of this property)
+        return dict(shadow=dict(target=d.choice(sorted(SHADOW)), k=d.int(0, 6),
+                                calls=d.int(1, 3), construct=d.choice(["macro", "macro", "rept", "irp"]),
+                                force2=d.bool(0.4), outer=d.choice(["before", "before", "section"]),
+                                nrefs=d.int(1, 2)))
     tn = d.choice(sorted(TARGETS))
     nlab = d.int(1, 6)
     nitems = d.int(3, 26 if tier == "quick" else 60)
@@ -310,6 +380,8 @@ def symtab(lst):
 
 
 def execute(case):
+    if "shadow" in case:
+        return execute_shadow(case)
     if "golden" in case:
         return execute_golden(case)
     tn = case["target"]
@@ -472,7 +544,7 @@ def execute_golden(case):
 
 
 def show(case):
-    if "golden" in case:
+    if "golden" in case or "shadow" in case:
         return case
     return dict(target=case["target"], origin=case["origin"], padding=case["padding"], items=case["items"])
 
